@@ -474,4 +474,4 @@ class FKF:
             # Kalman Update
             q, self.Pk = self.kalman_update(q_, qy, self.Pk, Phi, Sigma_eps, Sigma_v)
             Q[t] = q
-        return Q
+        return Q / np.linalg.norm(Q, axis=1)[:, None]    # Attitudes as versors
